@@ -253,6 +253,12 @@ func patchDelta(dst *bytes.Buffer, src, delta []byte) error {
 		return ErrInvalidDelta
 	}
 
+	// The target size header is mandatory: a delta that ends after the
+	// source size is rejected, as upstream's patch_delta does.
+	if len(delta) == 0 {
+		return ErrInvalidDelta
+	}
+
 	targetSz, delta, err := packutil.DecodeLEB128(delta)
 	if err != nil {
 		return fmt.Errorf("%w: %w", ErrInvalidDelta, err)
